@@ -31,7 +31,7 @@ How to build and test in the worktree (offline sandbox, no network):
   ctest --test-dir _build -j4 --timeout 900   # 70 tests must pass (the 6 above show as "Not Run")
 Always wrap runs of your own programs in `timeout 120`.
 
-Also write a demonstration: a small standalone C++ program (or Boost.Test file; Boost headers are installed, the existing tests under {wt}/tests show how servers, the test radio `test::radio`, and helpers are used) at {wt}/demo/demo.cpp plus {wt}/demo/build.sh (a script that compiles it against the worktree's headers with g++ -std=c++17 and produces {wt}/demo/demo) such that ./demo exits non-zero (showing the property violation) WITH your change and exits 0 WITHOUT it (git stash / git diff > patch; git checkout to test both ways). Verify both directions yourself.
+Also write a demonstration: a small standalone C++ program (or Boost.Test file; Boost headers are installed, the existing tests under {wt}/tests show how servers, the test radio `test::radio`, and helpers are used) at {wt}/demo/demo.cpp plus {wt}/demo/build.sh (a script that compiles it against the worktree's headers with g++ -std=c++17 and produces {wt}/demo/demo) such that ./demo exits non-zero (showing the property violation) WITH your change and exits 0 WITHOUT it (save `git diff -- bluetoe > patch.diff`, then `git apply -R patch.diff` / `git apply patch.diff` to test both ways; do NOT use `git stash`: the stash is shared with other worktrees of the same repository). Verify both directions yourself.
 
 Deliverables (all inside {wt}):
   - {wt}/patch.diff  : `git diff -- bluetoe` of the mutation only (not the demo)
